@@ -204,6 +204,24 @@ func c17Build(c c17Case, now time.Time) (*w.State, string) {
 	return w.NewState(0, objs...), rs.Name
 }
 
+// c17JudgeReturned: the error the sync itself reports (Reconcile's return value) must reflect failed parallel calls as
+// well, whenever the status write succeeded (otherwise that error is returned). The canary clean-up is the documented
+// exception: ManageCanaryDeployment records the failure in PodsCleanupDone and asks for a prompt requeue instead.
+func c17JudgeReturned(run *h.Run, c c17Case, sch *schedule, statusWritten bool, returned error) {
+	if sch.deadlock || !statusWritten || c.Kind == "cleanup-canary" {
+		return
+	}
+	if sch.failures > 0 && returned == nil {
+		run.Violate(h.Violation{Signature: "C17/lost: failed parallel pod " + c.Kind + " calls are not reflected in the error the sync returns", Monitor: "C17/reconcile",
+			Message: fmt.Sprintf("%d failures, Reconcile returned nil", sch.failures), Rank: int64(c.K*100 + sch.failures),
+			Replay: map[string]interface{}{"level": "reconcile", "case": c, "schedule": sch.choices, "released": sch.released}})
+	}
+	if sch.failures == 0 && returned != nil {
+		run.Violate(h.Violation{Signature: "C17/spurious: the sync returns an error although every parallel call succeeded", Monitor: "C17/reconcile",
+			Message: returned.Error(), Replay: map[string]interface{}{"level": "reconcile", "case": c, "schedule": sch.choices}})
+	}
+}
+
 func c17Judge(run *h.Run, level string, c c17Case, sch *schedule, post *v1.ExtendedDaemonSetReplicaSet, statusWritten bool) {
 	viol := func(sig, msg string) {
 		run.Violate(h.Violation{Signature: sig, Monitor: "C17/" + level, Message: msg, Rank: int64(c.K*100 + sch.failures),
@@ -264,6 +282,7 @@ func c17Reconcile(t *testing.T, run *h.Run, c c17Case) int {
 				run.Violate(h.Violation{Signature: fmt.Sprintf("C17/panic: %v at %s", rr.Panic, rr.PanicSite), Monitor: "C17/reconcile", Message: "", Replay: c})
 			}
 			c17Judge(run, "reconcile", c, sch, post, written)
+			c17JudgeReturned(run, c, sch, written, rr.Err)
 		}
 	}, func() { run.Count("schedules", 1) })
 }
